@@ -7,19 +7,29 @@ import Poupool.Properties.C01
 `Model/Glue.lean` proves "master knows X halted ∧ X's inbox served ⇒ X halted" for a pair whose *master* is
 hand-written (mHalt / mObserve / mTell / mMove on a ghost bit); that those operations are what the generated
 master programs do was only true "by construction of the translator".  Here the master is the generated
-description itself (`Model/Compose.lean`):
+description itself (`Model/Compose.lean`): its handlers are run by `stepE` (= `step` + the effects performed,
+`Compose.stepE_proj`), their tell tags / answered questions are replayed against the slave's FIFO inbox while the
+slave runs ITS generated `step`.
 
 * `*_discipline` – the decidable checker `ghostDiscipline` (Proofs/ComposeDiscipline.lean) accepts the generated
   master: on every path of every callback / method program the ghost variable gets a "known halted" value only
-  right after a halt-class tell tag or by an `is_halt` TRUE refinement, gets another value after every other tell
-  to X, `havoc` only forgets, and forgets in every allowed phase.  Kernel-evaluated on the generated programs.
-* `masterOK_of_discipline` (induction over `Stmt`, soundness w.r.t. the effect-reporting interpreter `execE`) and
+  right after a halt-class tell tag or by the refinement of an observed answer (`is_halt()` TRUE, `is_heating()`
+  FALSE), gets another value after every tell of a start message to X, `havoc` only forgets, and forgets in every
+  allowed phase.  Kernel-evaluated on the generated programs; each instance comes with mutants it rejects.
+* `Compose.masterOK_of_discipline` (soundness of the checker w.r.t. `execE`, induction over `Stmt`) and
   `Compose.halted_when_served` (induction over composed steps) then give, for EVERY interleaving of the composed
   system: master between two handlers ∧ ghost variable says halted ∧ none of its messages waits ⇒ X halted.
-* `*_composed_halt` – with the master certificate (`C01.filtration_halt` …): master in phase `halt` ∧ X's inbox
-  served ⇒ X in its halt phase.
-* the tell tags are not typed in by hand: `tells_*` recompute them from the generated name table.
-* `Compose.will_be_halted` is the un-settled form: whatever is in X's inbox now, once served X is halted.
+  `Compose.will_be_halted` is the un-settled form: whatever is in X's inbox now, once served X is halted.
+* `*_composed_*` – with the master certificate (`C01.filtration_halt` …): master in phase `halt` (or any phase of
+  the relevant list) ∧ X's inbox served ⇒ X in its halt phase.
+* the tell tags are not typed in by hand: `tells_*` recompute them from the generated name table, check that every
+  `tell:X.*` name is a message of X's alphabet, and recompute the allowed phases from the generated `havoc`.
+* H1/H2 on the slaves are the ones of C01 (`decide +kernel` over the slave certificates).
+
+Still assumed (as in Glue.lean): a handler of the master is atomic w.r.t. other messages to the MASTER (the slave
+does run during it); the slave's guard question to the master is answered between two master handlers and is atomic
+with the slave's transition; a start message that does not come from the master is always guarded that way (for
+Disinfection / PWM / Heating-`force` this means: nobody else sends it); the translator emits the tag for every tell.
 -/
 namespace Poupool.ComposeProps
 open Poupool Poupool.Gen Poupool.Compose
@@ -33,6 +43,11 @@ def tellsOf (slave : String) (msgs : List String) : List (Nat × Msg) :=
       | some k => some (i, Msg.plain k)
       | none => none
     else none
+
+/-- every name `tell:<slave>.<m>` of the table names a message of the slave (nothing is dropped by `tellsOf`) -/
+def tellsResolved (slave : String) (msgs : List String) : Bool :=
+  let pre := "tell:" ++ slave ++ "."
+  names.all fun nm => !pre.isPrefixOf nm || (msgs.idxOf? (nm.drop pre.length).toString).isSome
 
 /-- the leaves in which `havoc` forgets variable `v` -/
 def havocLeaves (D : ActorDesc) (v : VarId) : List LeafId :=
@@ -63,7 +78,7 @@ def filtDis : CSpec :=
 
 /-- the tag table is the one of the generated names; nothing forgets this variable (Disinfection is only ever
     started by Filtration), so a foreign `run` is always refused -/
-theorem tells_filtDis : filtDis.tells = tellsOf "Disinfection" disinfectionMsgs ∧ tellsInAlphabet filtDis = true ∧
+theorem tells_filtDis : filtDis.tells = tellsOf "Disinfection" disinfectionMsgs ∧ tellsResolved "Disinfection" disinfectionMsgs = true ∧ tellsInAlphabet filtDis = true ∧
     filtDis.allowed = [] := by decide +kernel
 
 theorem filtDis_discipline : ghostDiscipline filtDis = true := by decide +kernel
@@ -92,12 +107,21 @@ theorem filtDis_halted_when_served {g : CSt} (h : CReach filtDis g) (hidle : g.t
     (by simpa [filtDis, St.v] using hg) hs
   simpa [filtDis, C01.disinfectionSpec] using this
 
+/-- non-vacuity (trivial instance; a run in which Disinfection is started and halted follows `filtDis_demo`) -/
+example : CReach filtDis (cinit filtDis) ∧ (cinit filtDis).todo = [] ∧
+    (cinit filtDis).m.v Filtration.v_rq_Disinfection = N.halt_ ∧ noMaster (cinit filtDis).inbox :=
+  ⟨CReach.init, rfl, by decide, by simp [noMaster, cinit]⟩
+
 /-- with the master certificate: Filtration in phase `halt`, Disinfection's inbox served ⇒ Disinfection in `halt` -/
 theorem filtDis_composed_halt {g : CSt} (h : CReach filtDis g) (hidle : g.todo = [])
     (hm : g.m.leaf = Filtration.leaf_halt) (hs : noMaster g.inbox) : g.x.leaf = Disinfection.leaf_halt := by
   have hinv := C01.filtration_halt g.m (creach_m filtDis h)
   simp only [C01.filtrationHaltOK, hm, bne_self_eq_false, Bool.false_or, Bool.and_eq_true, beq_iff_eq] at hinv
   exact filtDis_halted_when_served h hidle (by simp [hinv]) hs
+
+example : CReach filtDis (cinit filtDis) ∧ (cinit filtDis).todo = [] ∧
+    (cinit filtDis).m.leaf = Filtration.leaf_halt ∧ noMaster (cinit filtDis).inbox :=
+  ⟨CReach.init, rfl, rfl, by simp [noMaster, cinit]⟩
 
 /-- the phases in which the dosing must be off (C02's no-treatment list) -/
 def noTreatment (l : Nat) : Bool :=
@@ -168,7 +192,7 @@ def filtSwim : CSpec :=
     allowed := havocLeaves filtrationSafetyDesc Filtration.v_rq_Swim }
 
 /-- the allowed phases are the ones the translator reads from the source of Swim's guard `filtration_allow_swim` -/
-theorem tells_filtSwim : filtSwim.tells = tellsOf "Swim" swimMsgs ∧ tellsInAlphabet filtSwim = true ∧
+theorem tells_filtSwim : filtSwim.tells = tellsOf "Swim" swimMsgs ∧ tellsResolved "Swim" swimMsgs = true ∧ tellsInAlphabet filtSwim = true ∧
     filtSwim.allowed = [Filtration.leaf_standby_normal, Filtration.leaf_overflow_normal, Filtration.leaf_comfort,
       Filtration.leaf_wintering_stir, Filtration.leaf_wintering_waiting] := by decide +kernel
 
@@ -191,11 +215,19 @@ theorem filtSwim_halted_when_served {g : CSt} (h : CReach filtSwim g) (hidle : g
     (by simpa [filtSwim, St.v] using hg) hs
   simpa [filtSwim, C01.swimSpec] using this
 
+example : CReach filtSwim (cinit filtSwim) ∧ (cinit filtSwim).todo = [] ∧
+    (cinit filtSwim).m.v Filtration.v_rq_Swim = N.halt_ ∧ noMaster (cinit filtSwim).inbox :=
+  ⟨CReach.init, rfl, by decide, by simp [noMaster, cinit]⟩
+
 theorem filtSwim_composed_halt {g : CSt} (h : CReach filtSwim g) (hidle : g.todo = [])
     (hm : g.m.leaf = Filtration.leaf_halt) (hs : noMaster g.inbox) : g.x.leaf = Swim.leaf_halt := by
   have hinv := C01.filtration_halt g.m (creach_m filtSwim h)
   simp only [C01.filtrationHaltOK, hm, bne_self_eq_false, Bool.false_or, Bool.and_eq_true, beq_iff_eq] at hinv
   exact filtSwim_halted_when_served h hidle (by simp [hinv]) hs
+
+example : CReach filtSwim (cinit filtSwim) ∧ (cinit filtSwim).todo = [] ∧
+    (cinit filtSwim).m.leaf = Filtration.leaf_halt ∧ noMaster (cinit filtSwim).inbox :=
+  ⟨CReach.init, rfl, rfl, by simp [noMaster, cinit]⟩
 
 /-- the phases in which the counter-current pump must never run (C13's list) -/
 def neverList (l : Nat) : Bool :=
@@ -268,7 +300,7 @@ def filtHeat : CSpec :=
     isStart := C01.heatingForceSpec.isStart
     allowed := [] }
 
-theorem tells_filtHeat : filtHeat.tells = tellsOf "Heating" heatingMsgs ∧ tellsInAlphabet filtHeat = true := by
+theorem tells_filtHeat : filtHeat.tells = tellsOf "Heating" heatingMsgs ∧ tellsResolved "Heating" heatingMsgs = true ∧ tellsInAlphabet filtHeat = true := by
   decide +kernel
 
 theorem filtHeat_discipline : ghostDiscipline filtHeat = true := by decide +kernel
@@ -286,16 +318,57 @@ theorem filtHeat_not_forcing_when_served {g : CSt} (h : CReach filtHeat g) (hidl
     (by simpa [filtHeat, St.v] using hg) hs
   simpa [filtHeat, C01.heatingForceSpec] using this
 
+example : CReach filtHeat (cinit filtHeat) ∧ (cinit filtHeat).todo = [] ∧
+    (cinit filtHeat).m.v Filtration.v_rq_Heating = N.halt_ ∧ noMaster (cinit filtHeat).inbox :=
+  ⟨CReach.init, rfl, by decide, by simp [noMaster, cinit]⟩
+
 theorem filtHeat_composed_halt {g : CSt} (h : CReach filtHeat g) (hidle : g.todo = [])
     (hm : g.m.leaf = Filtration.leaf_halt) (hs : noMaster g.inbox) : g.x.leaf ≠ Heating.leaf_forcing := by
   have hinv := C01.filtration_halt g.m (creach_m filtHeat h)
   simp only [C01.filtrationHaltOK, hm, bne_self_eq_false, Bool.false_or, Bool.and_eq_true, beq_iff_eq] at hinv
   exact filtHeat_not_forcing_when_served h hidle (Or.inl (by simp [hinv])) hs
 
-/-- non-vacuity: the initial state (everything halted) satisfies the hypotheses -/
-example : CReach filtHeat (cinit filtHeat) ∧ (cinit filtHeat).todo = [] ∧
-    (cinit filtHeat).m.leaf = Filtration.leaf_halt ∧ noMaster (cinit filtHeat).inbox :=
-  ⟨CReach.init, rfl, rfl, by simp [noMaster, cinit]⟩
+/-- A composed run: eco → standby (cover opens) → comfort, whose poll tells Heating `force`; Heating serves it
+    (→ `forcing`); then `halt`: Filtration tells `wait` and `halt`; Heating serves both. -/
+def filtHeatStart : List Act :=
+  [.master (.plain Filtration.m_eco) (fun _ => true), .drain, .serve (fun _ => true),
+   .master (.plain Filtration.m_standby) (fun o => o.1.leaf == Filtration.leaf_opening_standby), .drain,
+   .serve (fun _ => true),
+   .master (.delayed Filtration.m_do_repeat_opening) (fun o => o.1.armed == some Filtration.m_opened), .drain,
+   .master (.delayed Filtration.m_opened) (fun o => o.1.leaf == Filtration.leaf_standby_boost), .drain,
+   .serve (fun _ => true),
+   .master (.plain Filtration.m_comfort) (fun o => o.1.leaf == Filtration.leaf_comfort), .drain,
+   .serve (fun _ => true),
+   .master (.delayed Filtration.m_do_repeat_comfort) (fun o => o.2.contains (.emit 45)), .drain,
+   .serve (fun s => s.leaf == Heating.leaf_forcing)]
+
+def filtHeatStop : List Act :=
+  [.master (.plain Filtration.m_halt)
+     (fun o => o.2.contains (.emit 20) && !o.2.contains (.ask true [(0, 0), (1, 1)] [])), .drain,
+   .serve (fun _ => true)]
+
+theorem filtHeat_demo :
+    ((run filtHeat filtHeatStart (cinit filtHeat)).bind fun g1 =>
+      (run filtHeat filtHeatStop g1).map fun g2 =>
+        g1.m.leaf == Filtration.leaf_comfort && g1.x.leaf == Heating.leaf_forcing &&
+        g2.todo.isEmpty && g2.m.leaf == Filtration.leaf_halt && served g2 &&
+        g2.x.leaf == Heating.leaf_halt) = some true := by decide +kernel
+
+example : ∃ g1 g2, CReach filtHeat g1 ∧ g1.x.leaf = Heating.leaf_forcing ∧
+    run filtHeat filtHeatStop g1 = some g2 ∧ CReach filtHeat g2 ∧ g2.todo = [] ∧
+    g2.m.leaf = Filtration.leaf_halt ∧ noMaster g2.inbox := by
+  have h := filtHeat_demo
+  cases h1 : run filtHeat filtHeatStart (cinit filtHeat) with
+  | none => simp [h1] at h
+  | some g1 =>
+      cases h2 : run filtHeat filtHeatStop g1 with
+      | none => simp [h1, h2] at h
+      | some g2 =>
+          simp only [h1, h2, Option.bind_some, Option.map_some, Option.some.injEq, Bool.and_eq_true, beq_iff_eq,
+            List.isEmpty_iff] at h
+          have r1 := run_sound filtHeat _ _ _ CReach.init h1
+          exact ⟨g1, g2, r1, h.1.1.1.1.2, h2, run_sound filtHeat _ _ _ r1 h2, h.1.1.1.2, h.1.1.2,
+            noMaster_of_served h.1.2⟩
 
 /-! ## Filtration ∥ Heating, scheduled side (`heat` is Heating's own request, guarded by `filtration_allow_heating`)
 
@@ -316,7 +389,7 @@ def filtHeatSched : CSpec :=
     isStart := C01.heatingHeatSpec.isStart
     allowed := havocLeaves filtrationSafetyDesc Filtration.v_ks_Heating }
 
-theorem tells_filtHeatSched : filtHeatSched.tells = tellsOf "Heating" heatingMsgs ∧
+theorem tells_filtHeatSched : filtHeatSched.tells = tellsOf "Heating" heatingMsgs ∧ tellsResolved "Heating" heatingMsgs = true ∧
     tellsInAlphabet filtHeatSched = true ∧ filtHeatSched.allowed = [Filtration.leaf_heating_running] := by
   decide +kernel
 
@@ -338,6 +411,10 @@ theorem filtHeatSched_not_heating_when_served {g : CSt} (h : CReach filtHeatSche
     (by simpa [filtHeatSched, St.v] using hg) hs
   simpa [filtHeatSched, C01.heatingHeatSpec] using this
 
+example : CReach filtHeatSched (cinit filtHeatSched) ∧ (cinit filtHeatSched).todo = [] ∧
+    (cinit filtHeatSched).m.v Filtration.v_ks_Heating = 1 ∧ noMaster (cinit filtHeatSched).inbox :=
+  ⟨CReach.init, rfl, by decide, by simp [noMaster, cinit]⟩
+
 /-- the master invariant of C06: outside `heating_running` Filtration knows Heating is not `heating` -/
 theorem filtration_knows_not_heating : ∀ s, Reach filtrationSafetyDesc s →
     (s.v Filtration.v_ks_Heating == 1 || s.leaf == Filtration.leaf_heating_running) = true :=
@@ -353,10 +430,48 @@ theorem filtHeatSched_composed {g : CSt} (h : CReach filtHeatSched g) (hidle : g
   · exact filtHeatSched_not_heating_when_served h hidle hinv hs
   · exact absurd hinv hm
 
-/-- non-vacuity: the initial state (everything halted) satisfies the hypotheses -/
-example : CReach filtHeatSched (cinit filtHeatSched) ∧ (cinit filtHeatSched).todo = [] ∧
-    (cinit filtHeatSched).m.leaf ≠ Filtration.leaf_heating_running ∧ noMaster (cinit filtHeatSched).inbox :=
-  ⟨CReach.init, rfl, by decide, by simp [noMaster, cinit]⟩
+/-- A composed run with a start that does NOT come from the master: eco → eco_normal → `heat` →
+    `heating_running` (allowed phase: Filtration forgets); Heating's own `heat` request is accepted (→ `heating`);
+    then `halt`: leaving `heating_running` Filtration tells `wait`, entering `halt` it tells `halt`; Heating serves
+    both and Filtration again knows "not heating". -/
+def filtHeatSchedStart : List Act :=
+  [.master (.plain Filtration.m_eco) (fun o => o.1.armed == some Filtration.m_eco_normal), .drain,
+   .serve (fun _ => true),
+   .master (.delayed Filtration.m_eco_normal) (fun o => o.1.leaf == Filtration.leaf_eco_normal), .drain,
+   .serve (fun _ => true),
+   .master (.plain Filtration.m_heat) (fun o => o.1.leaf == Filtration.leaf_heating_running), .drain,
+   .serve (fun _ => true),
+   .other (.plain Heating.m_heat), .serve (fun s => s.leaf == Heating.leaf_heating)]
+
+def filtHeatSchedStop : List Act :=
+  [.master (.plain Filtration.m_halt)
+     (fun o => o.2.contains (.emit 3) && o.2.contains (.emit 20) &&
+       !o.2.contains (.ask true [(0, 0), (1, 1)] []) && !o.2.contains (.ask false [] [(1, 1)])), .drain,
+   .serve (fun _ => true)]
+
+theorem filtHeatSched_demo :
+    ((run filtHeatSched filtHeatSchedStart (cinit filtHeatSched)).bind fun g1 =>
+      (run filtHeatSched filtHeatSchedStop g1).map fun g2 =>
+        g1.m.leaf == Filtration.leaf_heating_running && g1.m.v Filtration.v_ks_Heating == 0 &&
+        g1.x.leaf == Heating.leaf_heating &&
+        g2.todo.isEmpty && g2.m.leaf == Filtration.leaf_halt && served g2 &&
+        g2.x.leaf == Heating.leaf_halt) = some true := by decide +kernel
+
+example : ∃ g1 g2, CReach filtHeatSched g1 ∧ g1.x.leaf = Heating.leaf_heating ∧
+    run filtHeatSched filtHeatSchedStop g1 = some g2 ∧ CReach filtHeatSched g2 ∧ g2.todo = [] ∧
+    g2.m.leaf ≠ Filtration.leaf_heating_running ∧ noMaster g2.inbox := by
+  have h := filtHeatSched_demo
+  cases h1 : run filtHeatSched filtHeatSchedStart (cinit filtHeatSched) with
+  | none => simp [h1] at h
+  | some g1 =>
+      cases h2 : run filtHeatSched filtHeatSchedStop g1 with
+      | none => simp [h1, h2] at h
+      | some g2 =>
+          simp only [h1, h2, Option.bind_some, Option.map_some, Option.some.injEq, Bool.and_eq_true, beq_iff_eq,
+            List.isEmpty_iff] at h
+          have r1 := run_sound filtHeatSched _ _ _ CReach.init h1
+          exact ⟨g1, g2, r1, h.1.1.1.1.2, h2, run_sound filtHeatSched _ _ _ r1 h2, h.1.1.1.2,
+            by rw [h.1.1.2]; decide, noMaster_of_served h.1.2⟩
 
 /-! ## Disinfection ∥ PWM(pH)  (second link of the chain Filtration → Disinfection → PWM) -/
 
@@ -371,7 +486,7 @@ def disPwm : CSpec :=
     isStart := C01.pwmSpec.isStart
     allowed := havocLeaves disinfectionSafetyDesc Disinfection.v_rq_PWMph }
 
-theorem tells_disPwm : disPwm.tells = tellsOf "PWMph" pwmMsgs ∧ tellsInAlphabet disPwm = true ∧
+theorem tells_disPwm : disPwm.tells = tellsOf "PWMph" pwmMsgs ∧ tellsResolved "PWMph" pwmMsgs = true ∧ tellsInAlphabet disPwm = true ∧
     disPwm.allowed = [] := by decide +kernel
 
 theorem disPwm_discipline : ghostDiscipline disPwm = true := by decide +kernel
@@ -388,6 +503,10 @@ theorem disPwm_off_when_served {g : CSt} (h : CReach disPwm g) (hidle : g.todo =
   have := halted_when_served disPwm disPwm_masterOK disPwm_slaveOK h hidle
     (by simpa [disPwm, St.v] using hg) hs
   simpa [disPwm, C01.pwmSpec] using this
+
+example : CReach disPwm (cinit disPwm) ∧ (cinit disPwm).todo = [] ∧
+    (cinit disPwm).m.v Disinfection.v_rq_PWMph = 0 ∧ noMaster (cinit disPwm).inbox :=
+  ⟨CReach.init, rfl, by decide, by simp [noMaster, cinit]⟩
 
 /-- with the master certificate: Disinfection in `halt`, the loop's inbox served ⇒ pump off -/
 theorem disPwm_composed_halt {g : CSt} (h : CReach disPwm g) (hidle : g.todo = [])
@@ -439,7 +558,7 @@ def disPwmCl : CSpec :=
     tells := [(61, .plain PWM.m_do_cancel), (68, .plain PWM.m_do_run)]
     allowed := havocLeaves disinfectionSafetyDesc Disinfection.v_rq_PWMcl }
 
-theorem tells_disPwmCl : disPwmCl.tells = tellsOf "PWMcl" pwmMsgs ∧ tellsInAlphabet disPwmCl = true ∧
+theorem tells_disPwmCl : disPwmCl.tells = tellsOf "PWMcl" pwmMsgs ∧ tellsResolved "PWMcl" pwmMsgs = true ∧ tellsInAlphabet disPwmCl = true ∧
     disPwmCl.allowed = [] := by decide +kernel
 
 theorem disPwmCl_discipline : ghostDiscipline disPwmCl = true := by decide +kernel
